@@ -2088,6 +2088,18 @@ def gen_b3sum_literals():
     out.append("Definition b3_print_tag_prefix : list N := %s.\n" % coq_list(_rust_str(tp, "b3_print")))
     out.append("Definition b3_print_tag_sep : list N := %s.\n" % coq_list(_rust_str(ts, "b3_print")))
     out.append("Definition b3_print_plain_sep : list N := %s.\n" % coq_list(_rust_str(plainfmt[:-2], "b3_print")))
+    # exit status (C12): one failure counter for the whole run, incremented once per failing line / input, passed down by
+    # reference to every checkfile, and turned into the status by `if files_failed > 0 { 1 } else { 0 }`
+    body = fn_body(t, r"fn main\(\)", "b3_main")
+    find1(r"let mut files_failed = 0u64;", body, "b3_files_failed.init")
+    find1(r"check_one_checkfile\(path, &args, &mut files_failed\)\?;", body, "b3_files_failed.passed_by_reference")
+    if len(re.findall(r"files_failed\s*=[^=]", body)) != 2 or \
+            not re.search(r"files_failed = files_failed\.saturating_add\(1\);", body):
+        raise AnchorError("b3_files_failed: unexpected assignment to files_failed in main")
+    m = find1(r"std::process::exit\(if files_failed > (\d+) \{ (\d+) \} else \{ (\d+) \}\);", body, "b3_exit_status")
+    out.append("Definition b3_exit_status (files_failed : N) : N := if %s <? files_failed then %s else %s.\n" % m.groups())
+    cbody = fn_body(t, r"fn check_one_checkfile\s*\(", "b3_check_one_checkfile")
+    find1(r"\*files_failed = files_failed\.saturating_add\(1\);", cbody, "b3_files_failed.increment")
     return "".join(out)
 
 
